@@ -455,6 +455,35 @@ pub fn exp_c07(e: &mut Exp) {
             }
         }
     }
+    // the Bloom rate does not depend on the key type: 4-byte and short unsized keys
+    for &(n, p) in &[(400usize, 0.05f64), (2000, 0.02)] {
+        let (mut fp32, mut fps, mut total) = (0u64, 0u64, 0u64);
+        for s in 0..seeds {
+            let seed = (e.rng.next() % 1_000_000) as usize + s as usize;
+            let mut b32 = BloomFilter::<u32, BuildHasherSeeded>::with_properties_and_hash(n, p, BuildHasherSeeded::new(seed));
+            let mut bs = BloomFilter::<str, BuildHasherSeeded>::with_properties_and_hash(n, p, BuildHasherSeeded::new(seed));
+            let base = (e.rng.next() % 1_000_000) as u32;
+            for i in 0..n as u32 {
+                b32.insert(&(base + i)).unwrap();
+                bs.insert(format!("{:x}", i).as_str()).unwrap();
+            }
+            let per = probes / seeds;
+            for j in 0..per as u32 {
+                fp32 += b32.query(&(base + n as u32 + 1 + j)) as u64;
+                fps += bs.query(format!("{:x}", n as u32 + 1 + j).as_str()) as u64;
+            }
+            total += per;
+            e.evals += 1;
+        }
+        let t = total as f64;
+        let lim = 1.3 * p + 5.5 * (1.3 * p / t).sqrt() + 5.5 * 1.3 * p * (1.0 / (seeds as f64 * 1.3 * p * n as f64).sqrt()).min(1.0) + 2.0 / t;
+        for (name, fp) in [("u32", fp32), ("short str", fps)] {
+            let r = fp as f64 / t;
+            if r > lim {
+                e.fails.push(format!("bloom(n={}, p={}) with {} keys: false-positive frequency {:.5} exceeds 1.3*p (+margin)", n, p, name, r));
+            }
+        }
+    }
     // acceptance of n distinct inserts at sizes just below 0.95 * 2^j, where the table built by
     // with_properties_4 is at its fullest and inserts need relocations
     let big: &[(usize, f64)] = if e.scale > 1 { &[(62_259, 0.02), (124_518, 0.02), (249_036, 0.02), (31_129, 0.3)] } else { &[(62_259, 0.02), (124_518, 0.02)] };
@@ -482,7 +511,7 @@ pub fn exp_c07(e: &mut Exp) {
         }
     }
     // quotient filter: frequency <= m * 2^-(q+r)
-    for &(q, r, m) in &[(8usize, 4usize, 200u64), (10, 3, 600), (6, 8, 50)] {
+    for &(q, r, m) in &[(8usize, 4usize, 200u64), (10, 3, 600), (6, 8, 50), (8, 56, 200), (4, 60, 12), (10, 54, 600), (1, 63, 2)] {
         let mut fp = 0u64;
         let mut total = 0u64;
         for s in 0..seeds {
@@ -504,7 +533,7 @@ pub fn exp_c07(e: &mut Exp) {
             e.evals += 1;
         }
         let t = total as f64;
-        let target = m as f64 / (1u64 << (q + r)) as f64;
+        let target = m as f64 / 2f64.powi((q + r) as i32);
         let rate = fp as f64 / t;
         if rate > target + 5.5 * (target / t).sqrt() + 2.0 / t {
             e.fails.push(format!("quotient filter q={} r={} holding {}: false-positive frequency {:.5} exceeds m*2^-(q+r) = {:.5}", q, r, m, rate, target));
@@ -514,83 +543,107 @@ pub fn exp_c07(e: &mut Exp) {
 
 // ---------------------------------------------------------------------------------------------
 // C08: (epsilon, delta) point-query guarantee of the count-min sketch
+/// One (eps, delta) grid over three stream shapes for a key type: `$mk` maps an element number to
+/// the key handed to the sketch (`$T` is the sketch's key type, possibly unsized).
+macro_rules! c08_grid {
+    ($e:expr, $T:ty, $label:expr, $grid:expr, $seeds:expr, $mk:expr, $asref:expr) => {{
+        let e: &mut Exp = $e;
+        let seeds: u64 = $seeds;
+        for &(eps, delta) in $grid {
+            for shape in 0..3 {
+                let mut bad = 0u64;
+                let mut pairs = 0u64;
+                for s in 0..seeds {
+                    let mut c = CountMinSketch::<$T, u64, BuildHasherSeeded>::with_point_query_properties_and_hasher(eps, delta, BuildHasherSeeded::new((e.rng.next() % 1_000_000) as usize + s as usize));
+                    let mut truth: BTreeMap<u64, u64> = BTreeMap::new();
+                    let mut total = 0u64;
+                    let nel = 60u64;
+                    let base = (e.rng.next() >> 8) % 40_000;
+                    match shape {
+                        0 => {
+                            for i in 0..nel {
+                                let w = 1 + e.rng.below(5);
+                                let k = $mk(base + i);
+                                c.add_n($asref(&k), &w);
+                                *truth.entry(base + i).or_insert(0) += w;
+                                total += w;
+                            }
+                        }
+                        1 => {
+                            for i in 0..nel {
+                                let w = 1 + 200 / (i + 1);
+                                let k = $mk(base + i);
+                                c.add_n($asref(&k), &w);
+                                *truth.entry(base + i).or_insert(0) += w;
+                                total += w;
+                            }
+                        }
+                        _ => {
+                            // adversarial: floor(1/eps) - 1 heavy hitters each just above eps*N, rest light
+                            let heavy = ((1.0 / eps).floor() as u64).saturating_sub(1).max(1);
+                            let light = nel;
+                            let wl = 1u64;
+                            // choose heavy weight h with h > eps * (heavy*h + light): h (1 - eps*heavy) > eps*light
+                            let denom = 1.0 - eps * heavy as f64;
+                            let h = if denom > 0.0 { ((eps * light as f64 / denom).floor() as u64 + 1).max(2) } else { 50 };
+                            for i in 0..heavy {
+                                let k = $mk(base + 1000 + i);
+                                c.add_n($asref(&k), &h);
+                                *truth.entry(base + 1000 + i).or_insert(0) += h;
+                                total += h;
+                            }
+                            for i in 0..light {
+                                let k = $mk(base + i);
+                                c.add_n($asref(&k), &wl);
+                                *truth.entry(base + i).or_insert(0) += wl;
+                                total += wl;
+                            }
+                        }
+                    }
+                    for (k, t) in &truth {
+                        let key = $mk(*k);
+                        let q = c.query_point($asref(&key));
+                        if q < *t {
+                            e.fails.push(format!("count-min sketch underestimates ({} keys)", $label));
+                        }
+                        if (q - *t) as f64 > eps * total as f64 {
+                            bad += 1;
+                        }
+                        pairs += 1;
+                    }
+                    e.evals += 1;
+                }
+                let frac = bad as f64 / pairs as f64;
+                // elements of one seed are correlated: the margin is taken over seeds, not pairs
+                let lim = delta + 5.5 * (delta * (1.0 - delta) / seeds as f64).sqrt() + 1.0 / seeds as f64;
+                e.statmax("c08.frac_over_delta_x100", (frac / delta * 100.0) as u64);
+                if frac > lim {
+                    e.fails.push(format!("cms(eps={}, delta={}) shape {} ({} keys): overestimate exceeds eps*N for a fraction {:.4} of (seed, element) pairs > delta (+margin: {:.4})", eps, delta, shape, $label, frac, lim));
+                }
+            }
+        }
+    }};
+}
+
 pub fn exp_c08(e: &mut Exp) {
     let seeds: u64 = if e.scale > 1 { 3000 } else { 600 };
     let grid: &[(f64, f64)] = if e.scale > 1 {
-        &[(0.1, 0.5), (0.05, 0.1), (0.02, 0.01), (0.2, 0.9), (0.01, 0.3), (0.3, 0.05), (0.005, 0.2)]
+        &[(0.1, 0.5), (0.05, 0.1), (0.02, 0.01), (0.2, 0.9), (0.01, 0.3), (0.3, 0.05), (0.005, 0.2), (0.1, 0.4), (0.05, 0.6), (0.02, 0.45)]
     } else {
-        &[(0.1, 0.5), (0.05, 0.1), (0.2, 0.9), (0.02, 0.01), (0.025, 0.1), (0.09, 0.05), (0.03, 0.05), (0.1, 0.15), (0.2, 0.2), (0.0625, 0.25)]
+        &[(0.1, 0.5), (0.05, 0.1), (0.2, 0.9), (0.02, 0.01), (0.025, 0.1), (0.09, 0.05), (0.03, 0.05), (0.1, 0.15), (0.2, 0.2), (0.0625, 0.25), (0.1, 0.4), (0.05, 0.6)]
     };
-    for &(eps, delta) in grid {
-        for shape in 0..3 {
-            let mut bad = 0u64;
-            let mut pairs = 0u64;
-            for s in 0..seeds {
-                let mut c = CountMinSketch::<u64, u64, BuildHasherSeeded>::with_point_query_properties_and_hasher(eps, delta, BuildHasherSeeded::new((e.rng.next() % 1_000_000) as usize + s as usize));
-                let mut truth: BTreeMap<u64, u64> = BTreeMap::new();
-                let mut total = 0u64;
-                let nel = 60u64;
-                let base = e.rng.next() >> 8;
-                match shape {
-                    0 => {
-                        for i in 0..nel {
-                            let w = 1 + e.rng.below(5);
-                            c.add_n(&(base + i), &w);
-                            *truth.entry(base + i).or_insert(0) += w;
-                            total += w;
-                        }
-                    }
-                    1 => {
-                        for i in 0..nel {
-                            let w = 1 + 200 / (i + 1);
-                            c.add_n(&(base + i), &w);
-                            *truth.entry(base + i).or_insert(0) += w;
-                            total += w;
-                        }
-                    }
-                    _ => {
-                        // adversarial: floor(1/eps) - 1 heavy hitters each just above eps*N, rest light
-                        let heavy = ((1.0 / eps).floor() as u64).saturating_sub(1).max(1);
-                        let light = nel;
-                        let wl = 1u64;
-                        // choose heavy weight h with h > eps * (heavy*h + light): h (1 - eps*heavy) > eps*light
-                        let denom = 1.0 - eps * heavy as f64;
-                        let h = if denom > 0.0 { ((eps * light as f64 / denom).floor() as u64 + 1).max(2) } else { 50 };
-                        for i in 0..heavy {
-                            c.add_n(&(base + 1000 + i), &h);
-                            *truth.entry(base + 1000 + i).or_insert(0) += h;
-                            total += h;
-                        }
-                        for i in 0..light {
-                            c.add_n(&(base + i), &wl);
-                            *truth.entry(base + i).or_insert(0) += wl;
-                            total += wl;
-                        }
-                    }
-                }
-                for (k, t) in &truth {
-                    let q = c.query_point(k);
-                    if q < *t {
-                        e.fails.push("count-min sketch underestimates".into());
-                    }
-                    if (q - *t) as f64 > eps * total as f64 {
-                        bad += 1;
-                    }
-                    pairs += 1;
-                }
-                e.evals += 1;
-            }
-            let frac = bad as f64 / pairs as f64;
-            // elements of one seed are correlated: the margin is taken over seeds, not pairs
-            let lim = delta + 5.5 * (delta * (1.0 - delta) / seeds as f64).sqrt() + 1.0 / seeds as f64;
-            e.statmax("c08.frac_over_delta_x100", (frac / delta * 100.0) as u64);
-            if frac > lim {
-                e.fails.push(format!("cms(eps={}, delta={}) shape {}: overestimate exceeds eps*N for a fraction {:.4} of (seed, element) pairs > delta (+margin: {:.4})", eps, delta, shape, frac, lim));
-            }
-        }
+    fn same<T: ?Sized>(k: &T) -> &T {
+        k
     }
+    c08_grid!(e, u64, "u64", grid, seeds, |i: u64| i, same);
+    // the guarantee does not depend on the key type: small integer keys and short unsized keys
+    let small: &[(f64, f64)] = &[(0.1, 0.05), (0.05, 0.2), (0.02, 0.05)];
+    let seeds2 = seeds / 3;
+    c08_grid!(e, u32, "u32", small, seeds2, |i: u64| i as u32, same);
+    c08_grid!(e, u16, "u16", small, seeds2, |i: u64| i as u16, same);
+    c08_grid!(e, str, "short str", small, seeds2, |i: u64| format!("{:x}", i % 65_536), String::as_str);
+    c08_grid!(e, (u8, u8), "tuple", small, seeds2, |i: u64| ((i >> 8) as u8, i as u8), same);
 }
-
 
 /// C08, known finding: enhanced double hashing reaches only w^2 of the w^d column tuples (two
 /// elements that agree in h1 mod w and h2 mod w collide in every row), so the fraction of bad
@@ -968,6 +1021,23 @@ pub fn exp_c11(e: &mut Exp) {
         check_mem(e, "clone_from cmsheap k=1 into a loaded k=1000", crate::alloc::live() - base, 2 * 8 + 96 + 64, 512);
         drop(big);
     }
+    // --- deserialised HyperLogLog: 2^b bytes for well-formed documents; documents whose register
+    //     array does not match b are rejected (or, if accepted, still obey the bound) --------------
+    for &(b, len) in &[(4usize, 16usize), (10, 1024), (4, 1024), (4, 65536), (5, 16), (4, 17), (12, 4096)] {
+        let regs: Vec<String> = (0..len).map(|i| (i % 3).to_string()).collect();
+        let doc = format!("{{\"registers\":[{}],\"b\":{},\"buildhasher\":{{\"mul\":1,\"add\":0,\"sh\":64,\"seed\":0}}}}", regs.join(","), b);
+        let base = crate::alloc::live();
+        let r = serde_json::from_str::<HyperLogLog<u64, crate::script::ScriptBH>>(&doc);
+        if let Ok(mut h) = r {
+            let budget = 1usize << h.b().min(20);
+            check_mem(e, &format!("hll deserialised from a document with b={} and {} registers", b, len), crate::alloc::live() - base, budget, 128);
+            for i in 0..1000u64 {
+                h.add(&i);
+            }
+            h.clear();
+            check_mem(e, &format!("hll deserialised (b={}, {} registers) after adds and clear", b, len), crate::alloc::live() - base, budget, 128);
+        }
+    }
     // --- cms heap: k items (+ the sketch) ------------------------------------------------------
     for &k in &[1usize, 10, 1000] {
         use pdatastructs::topk::cmsheap::CMSHeap;
@@ -1191,6 +1261,43 @@ pub fn exp_glue(e: &mut Exp, prop: &str) {
                 if a.reservoir() != b.reservoir() || a.i() != b.i() {
                     e.fails.push(format!("reservoir k={}: Extend differs from repeated add", k));
                 }
+                // item types: zero-sized, wide, heap-allocated — the sampler's bookkeeping is the same
+                fn res_items<T: Clone>(e: &mut Exp, what: &str, k: usize, seed: u64, mk: impl Fn(u64) -> T, same: impl Fn(&T, u64) -> bool) {
+                    let mut r = ReservoirSampling::<T, ScriptRng>::new(k, ScriptRng::new(seed));
+                    let mut refr = ReservoirSampling::<u64, ScriptRng>::new(k, ScriptRng::new(seed));
+                    for n in 0..(6 * k as u64 + 7) {
+                        if n == 2 * k as u64 + 1 {
+                            // a clone taken while sampling continues like the original
+                            let mut c = r.clone();
+                            c.add(mk(n));
+                            if c.i() != n as usize + 1 || c.reservoir().len() != k.min(n as usize + 1) {
+                                e.fails.push(format!("reservoir of {} items k={}: clone at n={} holds {} items, i()={}", what, k, n, c.reservoir().len(), c.i()));
+                            }
+                        }
+                        r.add(mk(n));
+                        refr.add(n);
+                        let want = k.min(n as usize + 1);
+                        if r.reservoir().len() != want || r.i() != n as usize + 1 || r.is_empty() {
+                            e.fails.push(format!("reservoir of {} items k={}: after {} adds holds {} items, i()={}", what, k, n + 1, r.reservoir().len(), r.i()));
+                            return;
+                        }
+                        // the same positions are kept whatever the item type is
+                        if !r.reservoir().iter().zip(refr.reservoir().iter()).all(|(a, b)| same(a, *b)) {
+                            e.fails.push(format!("reservoir of {} items k={}: sample differs from the u64 sampler under the same RNG at n={}", what, k, n + 1));
+                            return;
+                        }
+                    }
+                    r.clear();
+                    r.add(mk(0));
+                    if r.reservoir().len() != 1 || r.i() != 1 {
+                        e.fails.push(format!("reservoir of {} items k={}: after clear and one add holds {} items", what, k, r.reservoir().len()));
+                    }
+                }
+                res_items(e, "zero-sized", k, seed, |_| (), |_, _| true);
+                res_items(e, "zero-length array", k, seed, |_| [0u64; 0], |_, _| true);
+                res_items(e, "wide", k, seed, |n| [n; 40], |a, b| a[0] == b && a[39] == b);
+                res_items(e, "String", k, seed, |n| n.to_string(), |a, b| *a == b.to_string());
+                res_items(e, "u8", k, seed, |n| n as u8, |a, b| *a == b as u8);
                 let mut c3 = ReservoirSampling::<u64, ScriptRng>::new(k, ScriptRng::new(seed));
                 let mut c4 = ReservoirSampling::<u64, ScriptRng>::new(k, ScriptRng::new(seed));
                 for round in 0..6u64 {
